@@ -1,1 +1,193 @@
+//! KI7 — the real `inflate()` entry point (prologue/epilogue) on a typed stream: cursor and counter deltas,
+//! BufError rule, window/checksum update folds every produced byte exactly once (C15, C04, C08, C02).
 use super::*;
+
+pub(crate) fn stub_adler_model(s: u32, b: &[u8]) -> u32 {
+    model_fold(s, b)
+}
+
+/// `inflate()` resumed inside a stored block (the state a previous call left behind), final block, zlib or raw:
+/// copies min(remaining, avail_in, avail_out) bytes, then (when the block completes and input suffices) verifies the trailer.
+#[kani::proof]
+#[kani::unwind(8)]
+#[kani::stub(crate::inflate::inftrees::inflate_table, stub_table_unreachable)]
+#[kani::stub(core::fmt::write, stub_fmt_write)]
+#[kani::stub(core::panicking::panic_nounwind, stub_pn)]
+#[kani::stub(core::panicking::panic_nounwind_fmt, stub_pnf)]
+#[kani::stub(crate::inflate::inflate_fast_help, stub_fast_unreachable)]
+#[kani::stub(crate::inflate::State::len_and_friends, stub_laf_suspends)]
+#[kani::stub(crate::inflate::writer::Writer::copy_match, stub_copy_match_unreachable)]
+#[kani::stub(crate::inflate::writer::Writer::extend_from_window, stub_efw_unreachable)]
+#[kani::stub(<[u16]>::fill, stub_fill_unreachable)]
+#[kani::stub(crate::adler32::adler32, stub_adler_model)]
+fn ki7_inflate_copyblock() {
+    const W: usize = 4;
+    const NI: usize = 7;
+    const CAP: usize = 4;
+    let input: [u8; NI] = kani::any();
+    let init: [u8; CAP + 2] = kani::any();
+    let mut out = init;
+    let mut win = [0u8; W + 64];
+    let wrap: u8 = kani::any();
+    kani::assume(wrap == 0 || wrap == 5 || wrap == 1);
+    let mut state = typed_state(&mut win, wrap, Mode::CopyBlock);
+    state.gzip_flags = if wrap == 0 { -1 } else { 0 };
+    state.flags.update(Flags::IS_LAST_BLOCK, true);
+    let remaining: usize = kani::any();
+    kani::assume(remaining <= 5);
+    state.length = remaining;
+    let total0: usize = kani::any();
+    kani::assume(total0 <= 1 << 40);
+    state.total = total0;
+    let ck0: u32 = kani::any();
+    state.checksum = ck0;
+    let n_in: u32 = kani::any();
+    kani::assume(n_in as usize <= NI);
+    let n_out: u32 = kani::any();
+    kani::assume(n_out as usize <= CAP);
+    let flush = any_flush();
+    let tin0: u64 = kani::any();
+    kani::assume(tin0 < 1 << 40);
+    let mut strm = typed_stream(unsafe { &mut *(&mut state as *mut State) });
+    strm.next_in = input.as_ptr() as *mut u8;
+    strm.avail_in = n_in;
+    strm.total_in = tin0 as _;
+    strm.next_out = out.as_mut_ptr();
+    strm.avail_out = n_out;
+    strm.total_out = total0 as _;
+    let rc = unsafe { inflate(&mut strm, flush) };
+    // cursors, remaining-space counters, running totals: exact, no underflow
+    assert!(strm.avail_in <= n_in && strm.avail_out <= n_out);
+    let used = (n_in - strm.avail_in) as usize;
+    let produced = (n_out - strm.avail_out) as usize;
+    assert!(strm.next_in as usize == input.as_ptr() as usize + used);
+    assert!(strm.next_out as usize == out.as_ptr() as usize + produced);
+    assert!(strm.total_in as u64 == tin0 + used as u64);
+    assert!(strm.total_out as usize == total0 + produced);
+    // data movement of the stored block
+    let mut copy = remaining;
+    if copy > n_in as usize {
+        copy = n_in as usize;
+    }
+    if copy > n_out as usize {
+        copy = n_out as usize;
+    }
+    assert!(produced == copy);
+    let mut i = 0;
+    while i < CAP + 2 {
+        if i < copy {
+            assert!(out[i] == input[i]);
+        } else {
+            assert!(out[i] == init[i]);
+        }
+        i += 1;
+    }
+    let stops_at_type = matches!(flush, InflateFlush::Block | InflateFlush::Trees);
+    let mode = strm.state.mode;
+    if copy < remaining {
+        // could not finish the block
+        assert!(used == copy && matches!(mode, Mode::CopyBlock));
+        if copy == 0 || matches!(flush, InflateFlush::Finish) {
+            assert!(rc == ReturnCode::BufError, "nothing moved (or Finish could not complete)");
+        } else {
+            assert!(rc == ReturnCode::Ok);
+        }
+    } else if stops_at_type {
+        assert!(used == copy && matches!(mode, Mode::Type));
+        assert!(rc == if copy == 0 { ReturnCode::BufError } else { ReturnCode::Ok });
+    } else if wrap == 0 {
+        assert!(rc == ReturnCode::StreamEnd && used == copy && matches!(mode, Mode::Done));
+    } else {
+        let rest = n_in as usize - copy;
+        if rest < 4 {
+            assert!(used == n_in as usize && matches!(mode, Mode::Check));
+            if (used == 0 && produced == 0) || matches!(flush, InflateFlush::Finish) {
+                assert!(rc == ReturnCode::BufError);
+            } else {
+                assert!(rc == ReturnCode::Ok);
+            }
+        } else {
+            let given = u32::from_be_bytes([input[copy], input[copy + 1], input[copy + 2], input[copy + 3]]);
+            let expect = model_fold(ck0, &input[..copy]);
+            if wrap & 4 != 0 && given != expect {
+                assert!(rc == ReturnCode::DataError && matches!(mode, Mode::Bad));
+            } else {
+                assert!(rc == ReturnCode::StreamEnd && used == copy + 4 && matches!(mode, Mode::Done));
+            }
+        }
+    }
+    // checksum: every produced byte folded exactly once when checking is on, never otherwise
+    if !matches!(mode, Mode::Bad) {
+        if wrap & 4 != 0 {
+            assert!(strm.state.checksum == model_fold(ck0, &input[..copy]));
+        } else {
+            assert!(strm.state.checksum == ck0);
+        }
+    }
+    // history: the window holds the last min(copy, W) bytes produced (like zlib, a wrapped stream whose trailer is
+    // verified in the same call does not record that call's output any more: the stream is over)
+    if copy > 0 && (wrap == 0 || matches!(mode, Mode::CopyBlock | Mode::Type | Mode::Check)) {
+        let have = strm.state.window.have();
+        assert!(have == if copy < W { copy } else { W });
+        let mut o = [0u8; W];
+        let n = unsafe { get_dictionary(&strm, o.as_mut_ptr()) };
+        assert!(n == have);
+        let mut i = 0;
+        while i < W {
+            if i < have {
+                assert!(o[i] == input[copy - have + i]);
+            }
+            i += 1;
+        }
+    }
+    kani::cover!(rc == ReturnCode::StreamEnd && wrap == 5 && copy == 3);
+    kani::cover!(rc == ReturnCode::BufError && matches!(flush, InflateFlush::Finish) && copy > 0);
+    kani::cover!(rc == ReturnCode::DataError);
+    kani::cover!(rc == ReturnCode::Ok && matches!(mode, Mode::Check));
+    core::mem::forget(strm);
+    core::mem::forget(state);
+}
+
+/// NULL buffers / terminal states: documented status, nothing moved
+#[kani::proof]
+#[kani::unwind(6)]
+#[kani::stub(crate::inflate::inftrees::inflate_table, stub_table_unreachable)]
+#[kani::stub(core::fmt::write, stub_fmt_write)]
+#[kani::stub(core::panicking::panic_nounwind, stub_pn)]
+#[kani::stub(core::panicking::panic_nounwind_fmt, stub_pnf)]
+#[kani::stub(crate::inflate::inflate_fast_help, stub_fast_unreachable)]
+#[kani::stub(crate::inflate::State::len_and_friends, stub_laf_suspends)]
+#[kani::stub(crate::inflate::writer::Writer::copy_match, stub_copy_match_unreachable)]
+#[kani::stub(crate::inflate::writer::Writer::extend_from_window, stub_efw_unreachable)]
+#[kani::stub(<[u16]>::fill, stub_fill_unreachable)]
+fn ki7_inflate_terminal() {
+    let input: [u8; 4] = kani::any();
+    let mut out = [0u8; 4];
+    let mut win = [0u8; 4 + 64];
+    let flush = any_flush();
+    let null_out: bool = kani::any();
+    let null_in: bool = kani::any();
+    let n_in: u32 = kani::any();
+    kani::assume(n_in <= 4);
+    let mut m = 0;
+    while m < 2 {
+        let (mode, expect) = if m == 0 { (Mode::Done, ReturnCode::StreamEnd) } else { (Mode::Bad, ReturnCode::DataError) };
+        let mut state = typed_state(&mut win, 0, mode);
+        let mut strm = typed_stream(unsafe { &mut *(&mut state as *mut State) });
+        strm.next_in = if null_in { core::ptr::null_mut() } else { input.as_ptr() as *mut u8 };
+        strm.avail_in = n_in;
+        strm.next_out = if null_out { core::ptr::null_mut() } else { out.as_mut_ptr() };
+        strm.avail_out = 4;
+        let rc = unsafe { inflate(&mut strm, flush) };
+        if null_out || (null_in && n_in != 0) {
+            assert!(rc == ReturnCode::StreamError);
+        } else {
+            assert!(rc == expect);
+        }
+        assert!(strm.avail_in == n_in && strm.avail_out == 4 && strm.total_in == 0 && strm.total_out == 0);
+        core::mem::forget(strm);
+        core::mem::forget(state);
+        m += 1;
+    }
+    kani::cover!(null_in && n_in == 0 && !null_out);
+}
